@@ -172,7 +172,8 @@ fn plan_rb(b: &Rb, t: &mut Tape) -> RbPlan {
         let mut q = Vec::new();
         for _ in 0..n {
             let s = t.value();
-            q.push((f as u8, if f == 0 { s & 0xff } else if f == 1 { s & 0xff_ffff } else { s }));
+            // (an out-of-range cumulative-lost value in one stale call out of three)
+            q.push((f as u8, if f == 0 { s & 0xff } else if f == 1 && (s >> 28) % 3 != 0 { s & 0xff_ffff } else if f == 1 { s | 0x0100_0000 } else { s }));
         }
         if !(n == 0 && *v == 0 && t.flag(1, 3)) {
             q.push((f as u8, *v));
@@ -323,7 +324,8 @@ fn stale_string(t: &mut Tape) -> String {
 
 /// History for one of the eight built-in packet kinds.
 pub fn plan_packet(s: &Spec, t: &mut Tape) -> Option<PacketPlan> {
-    let padq = |p: u8, t: &mut Tape| scalar(p, 0u8, t, |v| (v as u8) & !3, Op::Padding);
+    // stale (overwritten) values include INVALID ones: the last call must win completely
+    let padq = |p: u8, t: &mut Tape| scalar(p, 0u8, t, |v| if (v >> 8) % 4 == 0 { v as u8 | 1 } else { (v as u8) & !3 }, Op::Padding);
     Some(match s {
         Spec::Sr { ssrc, ntp, rtp, pc, oc, blocks, padding } => {
             let queues = vec![
@@ -370,11 +372,11 @@ pub fn plan_packet(s: &Spec, t: &mut Tape) -> Option<PacketPlan> {
             if !(n == 0 && data.is_empty() && t.flag(1, 3)) {
                 dq.push(Op::AppData(data.clone()));
             }
-            let queues = vec![padq(*padding, t), scalar(*subtype, 0u8, t, |v| v as u8 & 31, Op::Subtype), dq];
+            let queues = vec![padq(*padding, t), scalar(*subtype, 0u8, t, |v| if (v >> 8) % 4 == 0 { v as u8 | 32 } else { v as u8 & 31 }, Op::Subtype), dq];
             PacketPlan { ctor: Ctor::App(*ssrc, name.clone()), ops: interleave(queues, t) }
         }
         Spec::Unknown { pt, count, data, padding } => {
-            let queues = vec![padq(*padding, t), scalar(*count, 0u8, t, |v| v as u8 & 31, Op::Count)];
+            let queues = vec![padq(*padding, t), scalar(*count, 0u8, t, |v| if (v >> 8) % 4 == 0 { v as u8 | 32 } else { v as u8 & 31 }, Op::Count)];
             PacketPlan { ctor: Ctor::Unknown(*pt, data.clone()), ops: interleave(queues, t) }
         }
         Spec::Fb { kind, sender, media, fci, padding } => {
